@@ -264,8 +264,18 @@ func (p *plugin) probe(call *callable.Call) {
 			vars[k] = v
 		}
 	}
+	var act ProbeAction
+	if l.OnProbe != nil {
+		act = l.OnProbe(ProbeInfo{Lab: l, Hook: name, Trigger: tr.Trigger, VarStack: call.VarStack})
+	}
 	inv, beh, gate := l.hookBegin(name, Record{Kind: KHookStart, Hook: name, Trigger: tr.Trigger, Await: tr.Await, Critical: tr.Critical,
-		Timeout: tr.Timeout, Vars: vars, State: l.Env.Sm.Current(), Path: call.GetParentRolePath()})
+		Timeout: tr.Timeout, Vars: vars, State: l.Env.Sm.Current(), Path: call.GetParentRolePath(), Snap: act.Snap, Req: act.Req})
+	if act.Fail && beh == OK {
+		beh = CallError
+	}
+	if act.Sleep > 0 {
+		time.Sleep(act.Sleep)
+	}
 	if gate != nil {
 		l.waitGate(gate)
 	}
